@@ -1,9 +1,10 @@
 #!/bin/sh
-# usage: scripts/run_all.sh [tier] [seed]   — runs every check once, prints one verdict line each
+# usage: scripts/run_all.sh [tier] [seed] ["ids"]   — runs every check once, prints one verdict line each
 TIER=${1:-quick}; SEED=${2:-1}
 cd /verif
 (cd harness && cargo build --workspace --offline --quiet 2>/dev/null)
-for id in C01 C02 C03 C04 C05 C06 C07 C08 C09 C10 C11 C12 C13 C14 C15 C16 C17 C18 C19 C20; do
+IDS=${3:-"C01 C02 C03 C04 C05 C06 C07 C08 C09 C10 C11 C12 C13 C14 C15 C16 C17 C18 C19 C20"}
+for id in $IDS; do
   s=$(date +%s)
   out=$(bin/check $id --tier $TIER --seed $SEED --no-build 2>&1)
   rc=$?
